@@ -47,7 +47,7 @@ def main():
                 print('%-6s patch does not apply: %s' % (sid, r.stdout + r.stderr))
                 missed.append(sid)
                 continue
-            env = dict(os.environ, VERIF_YAML_LIB=os.path.join(tmp, 'lib'))
+            env = dict(os.environ, VERIF_YAML_LIB=os.path.join(tmp, 'lib'), VERIF_STOP_ON_VIOLATION='1')
             checks = built if args.all_checks else [prop]
             caught_by = []
             for chk in checks:
